@@ -136,6 +136,17 @@ Rule(e) ==
       [] e.op = "const" -> PostIs1(e, ZInt(e.n))
       [] e.op = "sign_neg" -> e.ret.n = -e.a
       [] e.op = "sign_mul" -> e.ret.n = e.a * e.b
+      [] e.op = "serialize" ->
+            LET t == e.ret.toks  v == S(e, 1) IN
+            /\ t.shape = (IF e.ty = "U" THEN "seq" ELSE "tuple")
+            /\ (e.ty = "I" => t.sign = v.s)
+            /\ t.len = t.count                                  \* declared length = number of elements
+            /\ IsWordsOf(t.elems, v, 4)
+      [] e.op = "deserialize" ->
+            LET t == e.toks IN
+            IF e.ty = "I" /\ t.sign \notin {-1, 0, 1} THEN ~e.ret.some
+            ELSE e.ret.some /\ PostIs1(e, OfBytesLE(IF e.ty = "I" THEN t.sign ELSE 1, t.elems))
+      [] e.op = "serde_roundtrip" -> PostIs1(e, S(e, 1))
       [] e.op = "to_str_radix" -> IsTextOf(e.ret.text, S(e, 1), e.radix, FALSE)
       [] e.op = "fmt" -> e.ret.text = FormatR(S(e, 1), e.spec)
       [] e.op = "to_radix_le" -> IsDigitsOf(Reverse(e.ret.bytes), S(e, 1).d, e.radix) /\ (e.ty = "I" => e.ret.n = S(e, 1).s)
